@@ -20,5 +20,6 @@ INVARIANT CancelReturnsCtx
 INVARIANT CancelCloses
 INVARIANT CancelPacketOnce
 INVARIANT NoOrphans
+INVARIANT NoInfoRace
 PROPERTY Returns
 CHECK_DEADLOCK FALSE
